@@ -208,3 +208,16 @@ def strip_logging(tree):
                     keep = [ast.copy_location(ast.Pass(), blk[0])]
                 setattr(node, fld, keep)
     return n
+
+
+def strip_docstrings(tree):
+    """remove the docstring of every function and class (documentation never takes part in a property; rules that count or index the
+    statements of a body must not depend on its presence).  A body that consists of its docstring only keeps it.  Returns the number removed."""
+    n = 0
+    for node in ast.walk(tree):
+        if isinstance(node, (ast.FunctionDef, ast.AsyncFunctionDef, ast.ClassDef)):
+            b = node.body
+            if len(b) > 1 and isinstance(b[0], ast.Expr) and isinstance(b[0].value, ast.Constant) and isinstance(b[0].value.value, str):
+                del b[0]
+                n += 1
+    return n
